@@ -28,6 +28,59 @@ from harness.common.svcgen import EVENTS, Hdr, ScriptState, _clone, _ev_data, _e
 from vgi_rpc.rpc import RpcConnection, RpcError, RpcServer, Stream, make_pipe_pair
 
 
+import enum
+
+
+class ColorS(enum.Enum):
+    """The SERVER's result enum …"""
+
+    RED = "RED"
+    GREEN = "GREEN"
+    BLUE = "BLUE"
+
+
+class ColorC(enum.Enum):
+    """… and the CLIENT's, built against an older Protocol: it does not know BLUE."""
+
+    RED = "RED"
+    GREEN = "GREEN"
+
+
+# unary methods whose result the client may be unable to validate / decode: name -> (server return annotation, value
+# returned, client return annotation).  Parameter is always `a: int`.
+XRET: dict[str, tuple[Any, Any, Any]] = {
+    "none_for_int": (int | None, None, int),                 # client: _validate_result TypeError
+    "enum_unknown": (ColorS, ColorS.BLUE, ColorC),           # client: ColorC["BLUE"] KeyError
+    "enum_known": (ColorS, ColorS.RED, ColorC),              # control: decodes
+    "int_for_dataclass": (int, 7, Hdr),                      # client: "Expected bytes for Hdr" TypeError
+    "bytes_for_dataclass": (bytes, b"not an ipc stream", Hdr),   # client: ArrowInvalid while reading the value
+    "str_for_enum": (str, "PURPLE", ColorC),                 # client: KeyError
+}
+
+
+def add_xret_methods(P: type, impl: Any, methods: list[dict[str, Any]]) -> None:
+    """Add the `xret` methods of a descriptor to an svcgen-built Protocol / implementation (rpc_methods uses dir())."""
+    from vgi_rpc.log import Level
+    from vgi_rpc.rpc import CallContext
+
+    for m in methods:
+        sret, value, _cret = XRET[m["xret"]]
+
+        def proto(self, a: int): ...
+        proto.__annotations__ = {"a": int, "return": sret}
+        proto.__name__ = proto.__qualname__ = m["name"]
+        setattr(P, m["name"], proto)
+
+        def fn(self, a: int, ctx: CallContext, _m=m, _v=value):
+            EVENTS.append(("invoke", _m["name"], a))
+            for lg in _m.get("logs", []):
+                ctx.client_log(Level(lg["level"]), lg["text"], **lg.get("extra", {}))
+            return _v
+        fn.__annotations__ = {"a": int, "ctx": CallContext, "return": sret}
+        fn.__name__ = m["name"]
+        setattr(type(impl), m["name"], fn)
+
+
 class LogBoom(Exception):
     """Raised by the client's on_log callback when the fault plan says so."""
 
@@ -47,6 +100,12 @@ def build_client_protocol(cdesc: dict[str, Any], version: str | None) -> type:
         ns["protocol_version"] = version
     for m in cdesc["methods"]:
         p = m.get("param", "a")
+        if m.get("xret"):
+            def cproto(self, a: int): ...
+            cproto.__annotations__ = {"a": int, "return": XRET[m["xret"]][2]}
+            cproto.__name__ = cproto.__qualname__ = m["name"]
+            ns[m["name"]] = cproto
+            continue
         if m["kind"] == "unary":
             tmpl = _c_unary_a if p == "a" else _c_unary_b
         elif m.get("header"):
@@ -118,7 +177,9 @@ def run_history(sdesc: dict[str, Any], cdesc: dict[str, Any], script: list[list[
                 server_version: str | None = None, client_version: str | None = None, bad_version: str | None = None,
                 deadline: float = 10.0) -> dict[str, Any]:
     EVENTS.clear()
-    P, impl = svcgen.build(sdesc, server_version)
+    xm = [m for m in sdesc["methods"] if m.get("xret")]
+    P, impl = svcgen.build({"methods": [m for m in sdesc["methods"] if not m.get("xret")]}, server_version)
+    add_xret_methods(P, impl, xm)
     CP = build_client_protocol(cdesc, client_version)
     CPbad = build_client_protocol(cdesc, bad_version) if bad_version is not None else None
     params = {m["name"]: m.get("param", "a") for m in cdesc["methods"]}
